@@ -301,7 +301,7 @@ NewTmp == CHOOSE f \in 1..(Cardinality(DOMAIN fs.tmps) + 1) : f \notin DOMAIN fs
 \* one step of thread t: expand macros at the head, then execute ONE primitive
 Do(t) ==
   LET st == Norm(pr.thr[t]) IN
-  /\ ctl.phase \in {"run", "retry"}
+  /\ ctl.phase \in {"run", "retry", "follow"}
   /\ pr.thr[t] # <<>>
   /\ LET h == IF st = <<>> THEN Ins("Nop") ELSE st[1]
          rest == IF st = <<>> THEN <<>> ELSE Tail(st)
@@ -413,12 +413,12 @@ FreshProc(prog) == [thr |-> [NoThreads EXCEPT ![1] = prog], par |-> [c \in Thr |
 Init == \E sc \in Scenarios :
           /\ fs = StartFS(sc.start)
           /\ pr = FreshProc(OpProg(sc))
-          /\ ctl = [phase |-> "run", crashes |-> 0, scen |-> sc, res |-> ""]
+          /\ ctl = [phase |-> "run", crashes |-> 0, scen |-> sc, res |-> "", fol |-> FALSE]
 
 Step == \E t \in Thr : Do(t)
 
 \* the caller's goroutine has nothing left to do: the operation returned nil
-Return == /\ ctl.phase \in {"run", "retry"} /\ \A c \in Thr : ~Busy(c)
+Return == /\ ctl.phase \in {"run", "retry", "follow"} /\ \A c \in Thr : ~Busy(c)
           /\ ctl' = [ctl EXCEPT !.phase = "done", !.res = "ok"] /\ UNCHANGED <<fs, pr>>
 
 \* SIGKILL: the directory stays as it is, the process and everything it knew is gone
@@ -442,7 +442,15 @@ Retry == /\ ctl.phase = "crashed"
          /\ pr' = FreshProc(OpProg(ctl.scen))
          /\ ctl' = [ctl EXCEPT !.phase = "retry"] /\ UNCHANGED fs
 
-Next == Step \/ Return \/ Crash \/ Retry
+\* instead of the retry: a new process runs ANOTHER operation that should complete the content (scen.f = import /
+\* copy of the image concerned under tag f.t, followed by Close) on the directory the crash left behind
+NoF == [kind |-> "", t |-> "", o |-> ""]
+FollowScen == [ctl.scen EXCEPT !.kind = ctl.scen.f.kind, !.t = ctl.scen.f.t, !.o = ctl.scen.f.o, !.gc = TRUE, !.f = NoF]
+Follow == /\ ctl.phase = "crashed" /\ ctl.scen.f.kind # ""
+          /\ pr' = FreshProc(OpProg(FollowScen))
+          /\ ctl' = [ctl EXCEPT !.phase = "follow", !.fol = TRUE] /\ UNCHANGED fs
+
+Next == Step \/ Return \/ Crash \/ Retry \/ Follow
 Spec == Init /\ [][Next]_vars
 
 (* ------------------ observation of a state, judged by (P) -------------- *)
@@ -490,7 +498,8 @@ Targets ==
 
 EstM == StartFS(ctl.scen.start).marker = "complete"
 EstI == StartFS(ctl.scen.start).index.ex
-P == INSTANCE LayoutFSProp WITH pre <- PreIdx.tags, tgt <- Targets, op <- OpRec, estM <- EstM, estI <- EstI,
+Targets2 == Targets \cup (IF ctl.fol THEN {ctl.scen.f.t} ELSE {})     \* tags named by either operation of the history
+P == INSTANCE LayoutFSProp WITH pre <- PreIdx.tags, tgt <- Targets2, op <- OpRec, estM <- EstM, estI <- EstI,
                                 k <- 0, bad <- <<>>
 
 \* O1-O4: every state is a crash state (also the states of the retry: it may be killed too)
@@ -501,12 +510,19 @@ ReturnOK == (ctl.phase = "done" /\ ctl.crashes = 0) =>
               /\ P!Failing(P!StateChecks(Obs, TRUE, EstI) \o P!FreshChecks(Obs, TRUE, EstI) \o P!GoalChecks(Obs, "O5")) = <<>>
 \* O6: after crash(es) and a completed repetition the intended state is there (the repetition itself
 \* may report an error, e.g. "not found" when the interrupted delete had already happened)
-RetryOK == (ctl.phase = "done" /\ ctl.crashes > 0) =>
+\* a crash state followed by another operation: when that operation returned success its tag resolves to its
+\* image, and (CrashStateOK, every state) no tag that neither operation names changed and no tag is dangling
+FollowOK == (ctl.phase = "done" /\ ctl.fol /\ ctl.res = "ok") =>
+              LET f == ctl.scen.f
+                  ix == fs.index
+              IN /\ Readable /\ f.t \in TagsOf(ix) /\ ix.tags[f.t] = f.o /\ Complete(f.o)
+                 /\ P!Failing(P!StateChecks(Obs, TRUE, TRUE) \o P!FreshChecks(Obs, TRUE, TRUE)) = <<>>
+RetryOK == (ctl.phase = "done" /\ ctl.crashes > 0 /\ ~ctl.fol) =>
               P!Failing(P!StateChecks(Obs, TRUE, EstI) \o P!FreshChecks(Obs, TRUE, EstI) \o P!GoalChecks(Obs, "O6")) = <<>>
 \* sanity of the model itself
 TypeOK == /\ fs.marker \in {"absent", "empty", "complete"}
           /\ pr.mu \in 0..MaxT /\ pr.gcl \in 0..1
           /\ \A c \in Thr : Busy(c) \/ c = 1 \/ pr.par[c] \in 0..MaxT
 \* no thread is stuck while the operation runs (locks are released, waits end)
-NoStuck == (ctl.phase \in {"run", "retry"} /\ \E c \in Thr : Busy(c)) => ENABLED Step
+NoStuck == (ctl.phase \in {"run", "retry", "follow"} /\ \E c \in Thr : Busy(c)) => ENABLED Step
 =============================================================================
